@@ -328,6 +328,7 @@ func checkC04(c *Ctx) {
 		}
 		c.Add("traces_validated_against_impl", 1)
 	}
+	c04FirstWrites(c)
 	c.Set("projected_interleavings", int64(len(keys)))
 	c.Set("gate_replays", int64(nrep))
 	// (ii) recorded free-running runs validated against PipelineTrace.tla
@@ -667,4 +668,46 @@ func c04MutexProbe(kind string) (key, what string) {
 		return "C04/sink-overlap", fmt.Sprintf("sink kind %s: a second goroutine entered the sink's Write while the first was still inside it (the sink is not lock-protected)", kind)
 	}
 	return "", ""
+}
+
+// c04FirstWrites: the very first entries through a fresh buffered sink, from several goroutines at once (the sink
+// starts its flush machinery lazily on first use).
+func c04FirstWrites(c *Ctx) {
+	rounds := c.Pick(300, 3000)
+	for r := 0; r < rounds && !c.Saturated(); r++ {
+		rec := &c04Rec{id: 1}
+		b := &zapcore.BufferedWriteSyncer{WS: rec, Size: 4096, FlushInterval: time.Hour}
+		lg := zap.New(zapcore.NewCore(c04Enc(), b, zapcore.DebugLevel))
+		const G = 6
+		start := make(chan struct{})
+		var wg sync.WaitGroup
+		for g := 1; g <= G; g++ {
+			wg.Add(1)
+			go func(g int) {
+				defer wg.Done()
+				<-start
+				lg.Info(fmt.Sprintf("g%d-%d", g, 1), c04Fields(nil, g, 1, 20)...)
+			}(g)
+		}
+		close(start)
+		wg.Wait()
+		lg.Sync()
+		stopped := make(chan struct{})
+		go func() { defer close(stopped); defer func() { recover() }(); b.Stop() }()
+		select {
+		case <-stopped:
+		case <-time.After(5 * time.Second):
+			c.Violation("C04/entry-lost", "Stop of a buffered sink first used by several goroutines at once did not return", map[string]interface{}{"mode": "first-writes"})
+			return
+		}
+		w := &c04World{recs: []*c04Rec{rec}, sync: []bool{false}}
+		counts := map[int]int{}
+		for g := 1; g <= G; g++ {
+			counts[g] = 1
+		}
+		if key, what := c04Oracle(w, counts); key != "" {
+			c.Violation(key, what+fmt.Sprintf(" [%d goroutines each logging their first entry through a fresh BufferedWriteSyncer at the same moment, round %d]", G, r), map[string]interface{}{"mode": "first-writes"})
+		}
+		c.Add("traces_validated_against_impl", 1)
+	}
 }
